@@ -174,7 +174,81 @@ def request_bytes(spec):
         data = graft_attribute(data, spec["graft"])
     if spec.get("graft_node"):
         data = graft_node(data, spec["graft_node"])
+    if spec.get("only_late"):
+        data = keep_only_late(data, v, int(spec["only_late"], 16))
     return data
+
+
+def _late_of(data, v):
+    tags = set()
+    for n in R.parse(data):
+        R.all_tags(n, tags)
+    return set(t for t, w in S.late_tags(tags, v).items() if w.startswith("since"))
+
+
+def keep_only_late(data, v, keep):
+    """The request with every later-version field removed except the one tagged `keep` (a gate
+    that looks for one later field must not be the only thing that stops the others)."""
+    msg = R.parse_one(data)
+    late = _late_of(data, v) - {keep}
+
+    def holds(n):
+        return n["tag"] == keep or any(holds(c) for c in n.get("children", []))
+
+    def walk(n):
+        if "children" in n:
+            n["children"] = [c for c in n["children"] if c["tag"] not in late or holds(c)]
+            for c in n["children"]:
+                walk(c)
+    walk(msg)
+    return R.encode_node(msg)
+
+
+def later_writer_variants(cases):
+    """The library's writers leave out fields the version at hand does not define, so a case built
+    with them never carries such a field: one more case per later writer (KMIP 1.2 / 1.4 rules)
+    whose encoding of the same request differs - what a client sends that uses the field anyway."""
+    out = []
+    for c in cases:
+        v = tuple(c["v"])
+        if c.get("enc") or "raw_op" in c or v >= (1, 4):
+            continue
+        try:
+            base = request_bytes(c)
+        except Exception:
+            base = None
+        seen = {base}
+        for enc in ((1, 2), (1, 4)):
+            if enc <= v:
+                continue
+            d = dict(c, enc=list(enc), label="%s/written-as-%d.%d" % (c["label"], enc[0], enc[1]))
+            try:
+                data = request_bytes(d)
+            except Exception:
+                continue
+            if data in seen:
+                continue
+            seen.add(data)
+            out.append(d)
+    return out
+
+
+def only_late_variants(cases):
+    """For every case whose request carries two or more later-version fields: one more case per
+    such field, carrying that field alone."""
+    out = []
+    for c in cases:
+        if c.get("only_late"):
+            continue
+        try:
+            late = _late_of(request_bytes(c), tuple(c["v"]))
+        except Exception:
+            continue
+        if len(late) < 2:
+            continue
+        for t in sorted(late):
+            out.append(dict(c, only_late="%06x" % t, label="%s/only-%s" % (c["label"], S.tag_name(t))))
+    return out
 
 
 def graft_node(data, g):
@@ -1006,6 +1080,25 @@ def run_d3(spec):
 
 
 # ====================================================================== part d4
+def _valid_gcm_items(wk):
+    """Decrypt requests the server answers with the plaintext where the authenticated-encryption
+    fields are defined (so that nothing but a version gate refuses them elsewhere): ciphertext and
+    tag computed here, independently, under the stored key of the standard store."""
+    from cryptography.hazmat.primitives.ciphers.aead import AESGCM
+    key = bytes.fromhex(F.det_bytes("SymmetricKey-ACTIVE", 16))
+    iv = bytes.fromhex("ab" * 12)
+    pt = bytes.fromhex(BLK)
+    out = []
+    for lab, aad in (("tag", None), ("aad+tag", b"\x01\x02")):
+        ct = AESGCM(key).encrypt(iv, pt, aad)
+        it = {"op": "Decrypt", "uid": wk, "params": {"alg": "AES", "mode": "GCM", "tag_length": 16},
+              "data": ct[:-16].hex(), "iv": iv.hex(), "tag": ct[-16:].hex()}
+        if aad is not None:
+            it["aad"] = aad.hex()
+        out.append(("Decrypt/valid-gcm-" + lab, it, None))
+    return out
+
+
 def cases_d4():
     idx = _idx()
     wk = idx["SymmetricKey/ACTIVE"]
@@ -1027,6 +1120,7 @@ def cases_d4():
         ("Encrypt/aad", {"op": "Encrypt", "uid": wk, "params": {"alg": "AES", "mode": "GCM", "tag_length": 16}, "data": BLK, "iv": "ab" * 12, "aad": "0102"}, None),
         ("Encrypt/random-iv-param", {"op": "Encrypt", "uid": wk, "params": dict(cbc, random_iv=True, iv_length=16), "data": BLK}, None),
         ("Decrypt/aad+tag", {"op": "Decrypt", "uid": wk, "params": {"alg": "AES", "mode": "GCM", "tag_length": 16}, "data": BLK, "iv": "ab" * 12, "aad": "0102", "tag": "ee" * 16}, None),
+    ] + _valid_gcm_items(wk) + [
         ("Query/device-credential", {"op": "Query"}, {"cred": [{"kind": "device", "serial": "s", "password": "p", "device": "d", "network": "n", "machine": "m", "media": "md"}]}),
         ("Query/later-functions", {"op": "Query", "functions": ["QUERY_OPERATIONS", "QUERY_EXTENSION_LIST", "QUERY_EXTENSION_MAP", "QUERY_ATTESTATION_TYPES", "QUERY_RNGS", "QUERY_VALIDATIONS", "QUERY_PROFILES", "QUERY_CAPABILITIES", "QUERY_CLIENT_REGISTRATION_METHODS"]}, None),
         ("Create/sensitive", F.create_item(extra_attrs=[["Sensitive", True]]), None),
@@ -1047,7 +1141,8 @@ def cases_d4():
             for val in (True, False):
                 out.append({"part": "d4", "v": list(v), "label": label, "item": item,
                             "graft_node": {"into": "42000f", "after": "42005c", "tag": "420154", "type": 6, "value": val}})
-    return out
+    out = out + later_writer_variants(out)
+    return out + only_late_variants(out)
 
 
 D2_OBJECTS = ["SymmetricKey/ACTIVE", "PrivateKey/ACTIVE", "Certificate/ACTIVE", "SecretData/PRE_ACTIVE"]
@@ -1077,7 +1172,8 @@ def cases_d2(stride, offset):
                 continue
             hdr = {x: y for x, y in req.items() if x != "items"}
             out.append({"part": "d4", "v": list(v), "label": "menu:" + label, "item": req["items"][0], "hdr": hdr})
-    return out
+    out = out + later_writer_variants(out)
+    return out + only_late_variants(out)
 
 
 def run_d4(spec):
